@@ -33,7 +33,7 @@ def cse(expressions, cse_concat=True, cse_in_brackets=False, verbose=False):
     # Keep only expressions
     # 1. with at least one axis
     # 2. where axes are not also used outside the expression
-    common_exprs = set()
+    common_exprs = {}  # Ordered: candidates are tried in order of first appearance, not in (hash-dependent) set order
     for str_expr in str_to_common_expr.keys():
         used_axis_ids = set()
         used_axis_names = set()
@@ -55,7 +55,7 @@ def cse(expressions, cse_concat=True, cse_in_brackets=False, verbose=False):
                         axes_used_only_in_this_subexpression = axes_used_only_in_this_subexpression and id(global_axis) in used_axis_ids
 
         if axes_used_only_in_this_subexpression:
-            common_exprs.add(str_expr)
+            common_exprs[str_expr] = None
 
     common_exprs = [str_to_common_expr[k] for k in common_exprs]  # list of common_expr(=list of exprlist)
 
@@ -182,17 +182,18 @@ def cse(expressions, cse_concat=True, cse_in_brackets=False, verbose=False):
             result = []
             i = 0
             while i < len(expr):
-                # Check if a subexpression starts at position i
+                # Check if a subexpression starts at position i. Overlapping candidates: the longest one wins
                 exprlist_found = None
-                for idx, common_expr in enumerate(common_exprs):  # noqa: B007
+                idx = None
+                for candidate_idx, common_expr in enumerate(common_exprs):
                     for exprlist in common_expr:
                         for j in range(len(exprlist)):
                             if i + j >= len(expr) or id(exprlist[j]) != id(expr[i + j]):
                                 break
                         else:
-                            exprlist_found = exprlist
-                    if exprlist_found is not None:
-                        break
+                            if exprlist_found is None or len(exprlist) > len(exprlist_found):
+                                exprlist_found = exprlist
+                                idx = candidate_idx
                 exprlist = exprlist_found
 
                 if exprlist is not None:
